@@ -103,6 +103,8 @@ ScanRow(cv, o, val, d) ==
         may |-> { << w, sts[w].pt >> : w \in { w \in 0..(N - 1) : sts[w].st = "may" } },
         other |-> { w \in 0..(N - 1) : sts[w].st = (IF dflt = "any" THEN "reject" ELSE "any") } ]
 
+PubRow(cv, o, P, d) == [ pt |-> P, d |-> d, comp |-> Encode(cv, o, "compressed", P).x,
+                         sepx |-> Encode(cv, o, "separate", P).x, sepy |-> Encode(cv, o, "separate", P).y ]
 PubT(cv, d) == IF Small(cv) THEN Tab[cv.name].gm[d + 1] ELSE PubOf(cv, d)
 RndList(cv, o) ==
    LET Bn == FieldBytes(cv)
@@ -116,7 +118,7 @@ KeyGenRow(cv, o) ==
                     ELSE LET r == CHOOSE y \in U : TRUE   ds == KeyGenD(cv, o, r)   dq == SetToSeq(ds \ { 0 })
                          IN F(U \ { r }, Append(acc, [rnd |-> r, ds |-> dq, mayfail |-> 0 \in ds,
                                                      \* the key pair's public half for every admitted private key
-                                                     pubs |-> [j \in 1..Len(dq) |-> PointRow(cv, o, [pt |-> PubT(cv, dq[j]), d |-> dq[j]])]]))
+                                                     pubs |-> [j \in 1..Len(dq) |-> PubRow(cv, o, PubT(cv, dq[j]), dq[j])]]))
    IN F(RndList(cv, o), << >>)
 
 MulP(cv, P, j) == Mul(cv, j, P)
